@@ -1511,7 +1511,7 @@ class XonshParser(Parser):
         mark = self._mark()
         _lnum, _col = self._tokenizer.peek().start
         if self.expect("_"):
-            return ast.MatchAs(pattern=None, target=None, **self.span(_lnum, _col))
+            return ast.MatchAs(pattern=None, name=None, **self.span(_lnum, _col))
         self._reset(mark)
         return None
 
@@ -1603,7 +1603,7 @@ class XonshParser(Parser):
             return ast.MatchStar(name=target, **self.span(_lnum, _col))
         self._reset(mark)
         if (self.expect("*")) and (self.wildcard_pattern()):
-            return ast.MatchStar(target=None, **self.span(_lnum, _col))
+            return ast.MatchStar(name=None, **self.span(_lnum, _col))
         self._reset(mark)
         return None
 
